@@ -30,7 +30,8 @@ impl Masker for LiterateHaskellMasker {
 
         let mut location = 0;
         let mut in_code_env = false;
-        let mut last_line_blank = false;
+        // The start of the file counts as a blank line: a bird-track block may open the document.
+        let mut last_line_blank = true;
 
         for line in source.split(|c| *c == '\n') {
             let string_form = line.to_string();
